@@ -162,8 +162,12 @@ class Numeric:
                 a, b = np.asarray(a, dtype=float), np.asarray(b, dtype=float)
                 if a.shape != b.shape:
                     return False
-                scale = float(np.max(np.abs(a))) if a.size else 0.0
-                if a.size and not np.all(np.abs(a - b) <= self.rtol * scale + self.atol):
+                na, nb = np.isnan(a), np.isnan(b)
+                if not np.array_equal(na, nb):
+                    return False
+                fa, fb = a[~na], b[~nb]
+                scale = float(np.max(np.abs(fa))) if fa.size else 0.0
+                if fa.size and not np.all(np.abs(fa - fb) <= self.rtol * scale + self.atol):
                     return False
         return True
 
